@@ -1,7 +1,7 @@
 (* C10 — the parser model never runs out of fuel, on any token list, and every
    level function consumes at least one token when it succeeds. *)
 From Coq Require Import List NArith ZArith Bool Arith Lia.
-From NV Require Import Syntax.Token Syntax.Ast Syntax.StrEsc Syntax.Parser.
+From NV Require Import Syntax.Token Syntax.Ast Syntax.StmtAst Syntax.StrEsc Syntax.Parser.
 Import ListNotations.
 Local Open Scope nat_scope.
 
@@ -415,45 +415,543 @@ Proof.
   intros ts L. apply expression_d_good. lia.
 Qed.
 
-Lemma statement_good : forall ts, good (statement ts) ts.
+(* brute force for the functions that only look at a fixed token pattern *)
+Ltac gstep :=
+  first [ apply good_err | apply goodle_err | apply good_uns | apply goodle_uns
+        | (apply good_ok; simpl in *; lia) | (apply goodle_ok; simpl in *; lia)
+        | match goal with |- context [match ?x with _ => _ end] => is_var x; destruct x end
+        | match goal with |- context [if ?c then _ else _] => destruct c end ].
+Ltac gsolve := repeat gstep.
+
+Lemma good_bind_w : forall A B (r : res A) (k : A -> list token -> res B) ts ts0,
+  good r ts0 -> length ts0 <= length ts ->
+  (forall a rest, r = Ok a rest -> length rest < length ts0 -> good (k a rest) ts) -> good (bind r k) ts.
 Proof.
-  intros ts. unfold statement.
+  intros A B r k ts ts0 [H1 H2] L Hk. destruct r; simpl; try (split; [discriminate|intros; discriminate]).
+  - apply Hk; [reflexivity|]. apply (H2 a rest eq_refl).
+  - congruence.
+Qed.
+Lemma goodle_bind_w : forall A B (r : res A) (k : A -> list token -> res B) ts ts0,
+  good r ts0 -> length ts0 <= length ts ->
+  (forall a rest, r = Ok a rest -> length rest < length ts0 -> goodle (k a rest) ts) -> goodle (bind r k) ts.
+Proof.
+  intros A B r k ts ts0 [H1 H2] L Hk. destruct r; simpl; try (split; [discriminate|intros; discriminate]).
+  - apply Hk; [reflexivity|]. apply (H2 a rest eq_refl).
+  - congruence.
+Qed.
+
+(* ---- dimension expressions and type annotations *)
+Lemma dimension_exponent_n_good : forall n ts, length ts < n -> good (dimension_exponent_n n ts) ts.
+Proof.
+  induction n; intros ts L; [lia|]. simpl.
+  destruct ts as [|t r]; [apply good_err|]. destruct t; try apply good_err.
+  - (* ( *)
+    apply (good_bind_w _ _ _ _ _ r); [apply IHn; simpl in L; lia|simpl; lia|].
+    intros e rest E Lr. destruct rest as [|t1 r1]; [apply good_err|]. destruct t1; try apply good_err.
+    + apply good_ok. simpl in *. lia.
+    + apply (good_bind_w _ _ _ _ _ r1); [apply IHn; simpl in *; lia|simpl in *; lia|].
+      intros rhs rest2 E2 L2. destruct (exp_is_zero rhs); [apply good_err|].
+      destruct rest2 as [|t2 r2]; [apply good_err|]. destruct t2; try apply good_err.
+      destruct (exp_fits _); [apply good_ok; simpl in *; lia|apply good_err].
+  - (* - *)
+    apply (good_bind_w _ _ _ _ _ r); [apply IHn; simpl in L; lia|simpl; lia|].
+    intros e rest E Lr. apply good_ok. simpl. lia.
+  - (* number *)
+    destruct (negb _); [apply good_err|]. destruct (Z.leb _ _); [apply good_ok; simpl; lia|apply good_err].
+Qed.
+
+Lemma dimension_exponent_good : forall ts, good (dimension_exponent ts) ts.
+Proof. intros ts. apply dimension_exponent_n_good. lia. Qed.
+
+Section TypeFuel.
+  Variable tk : list token -> res tann.
+  Variable dk : list token -> res texp.
+  Variable b : nat.
+  Hypothesis Htk : forall ts, S (length ts) <= b -> good (tk ts) ts.
+  Hypothesis Hdk : forall ts, S (length ts) <= b -> good (dk ts) ts.
+
+  Lemma type_args_loop_good : forall n args ts, length ts < n -> length ts <= b ->
+    good (type_args_loop tk n args ts) ts.
+  Proof.
+    induction n; intros args ts L Lb; [lia|]. simpl.
+    destruct ts as [|t r]; [apply good_err|]. destruct t; try apply good_err; try apply good_uns.
+    - apply (good_bind_w _ _ _ _ _ r); [apply Htk; simpl in Lb; lia|simpl; lia|].
+      intros a rest E Lr. eapply good_weaken; [apply IHn; simpl in *; lia|simpl; lia].
+    - apply good_ok. simpl. lia.
+  Qed.
+
+  Lemma dimension_primary_good : forall ts, length ts <= b -> good (dimension_primary tk dk ts) ts.
+  Proof.
+    intros ts Lb. unfold dimension_primary.
+    destruct ts as [|t r]; [apply good_err|]. destruct t; try apply good_err.
+    - (* ( *)
+      apply (good_bind_w _ _ _ _ _ r); [apply Hdk; simpl in Lb; lia|simpl; lia|].
+      intros d rest E Lr. destruct rest as [|t1 r1]; [apply good_err|]. destruct t1; try apply good_err.
+      apply good_ok. simpl in *. lia.
+    - (* number *) destruct (list_eq_dec _ _ _); [apply good_ok; simpl; lia|apply good_err].
+    - (* identifier *)
+      destruct (starts_double_underscore name); [apply good_err|].
+      assert (Plain : good (Ok (TEIdent name []) r) (TIdent name :: r)) by (apply good_ok; simpl; lia).
+      destruct r as [|t1 r1]; [exact Plain|]. destruct t1; try exact Plain.
+      assert (Gen : good (bind (tk r1) (fun a rest =>
+                 bind (type_args_loop tk (S (length rest)) [a] rest) (fun args rest1 => Ok (TEIdent name args) rest1)))
+                 (TIdent name :: TLessThan :: r1)).
+      { apply (good_bind_w _ _ _ _ _ r1); [apply Htk; simpl in Lb; lia|simpl; lia|].
+        intros a rest E Lr.
+        apply (good_bind_w _ _ _ _ _ rest); [apply type_args_loop_good; simpl in *; lia|simpl; lia|].
+        intros args rest1 E1 L1. apply good_ok. simpl in *. lia. }
+      destruct r1 as [|t2 r2]; [exact Gen|]. destruct t2; try exact Gen.
+      + apply good_ok. simpl. lia.
+      + apply good_uns.
+  Qed.
+
+  Lemma dimension_power_good : forall ts, length ts <= b -> good (dimension_power tk dk ts) ts.
+  Proof.
+    intros ts Lb. unfold dimension_power.
+    apply (good_bind_w _ _ _ _ _ ts); [apply dimension_primary_good; exact Lb|lia|].
+    intros e rest E Lr. destruct rest as [|t r]; [apply good_ok; exact Lr|].
+    destruct t; try (apply good_ok; exact Lr).
+    - apply (good_bind_w _ _ _ _ _ r); [apply dimension_exponent_good|simpl in *; lia|].
+      intros x rest1 E1 L1. apply good_ok. simpl in *. lia.
+    - apply good_ok. simpl in *. lia.
+  Qed.
+
+  Lemma dimension_factor_loop_good : forall n acc ts, length ts < n -> length ts <= b ->
+    goodle (dimension_factor_loop tk dk n acc ts) ts.
+  Proof.
+    induction n; intros acc ts L Lb; [lia|]. simpl.
+    destruct ts as [|t r]; [apply goodle_ok; lia|]. destruct t; try (apply goodle_ok; lia).
+    - apply (goodle_bind_w _ _ _ _ _ r); [apply dimension_power_good; simpl in Lb; lia|simpl; lia|].
+      intros rhs rest E Lr. eapply goodle_weaken; [apply IHn; simpl in *; lia|simpl; lia].
+    - apply (goodle_bind_w _ _ _ _ _ r); [apply dimension_power_good; simpl in Lb; lia|simpl; lia|].
+      intros rhs rest E Lr. eapply goodle_weaken; [apply IHn; simpl in *; lia|simpl; lia].
+  Qed.
+
+  Lemma dimension_factor_good : forall ts, length ts <= b -> good (dimension_factor tk dk ts) ts.
+  Proof.
+    intros ts Lb. unfold dimension_factor.
+    apply (good_bind_w _ _ _ _ _ ts); [apply dimension_power_good; exact Lb|lia|].
+    intros e rest E Lr. eapply goodle_good; [apply dimension_factor_loop_good; lia|lia].
+  Qed.
+
+  Lemma fn_type_params_loop_good : forall n ps ts, length ts < n -> length ts <= b ->
+    goodle (fn_type_params_loop tk n ps ts) ts.
+  Proof.
+    induction n; intros ps ts L Lb; [lia|]. simpl.
+    destruct ts as [|t r]; [apply goodle_ok; lia|]. destruct t; try (apply goodle_ok; lia).
+    apply (goodle_bind_w _ _ _ _ _ r); [apply Htk; simpl in Lb; lia|simpl; lia|].
+    intros a rest E Lr. eapply goodle_weaken; [apply IHn; simpl in *; lia|simpl; lia].
+  Qed.
+
+  Lemma type_annotation_body_good : forall ts, length ts <= b -> good (type_annotation_body tk dk ts) ts.
+  Proof.
+    intros ts Lb. unfold type_annotation_body.
+    assert (D : good (bind (dimension_factor tk dk ts) (fun d rest => Ok (TAExp d) rest)) ts).
+    { apply (good_bind_w _ _ _ _ _ ts); [apply dimension_factor_good; exact Lb|lia|].
+      intros d rest E Lr. apply good_ok. exact Lr. }
+    destruct ts as [|t r]; [exact D|]. destruct t; try exact D.
+    destruct k; try exact D; try (apply good_ok; simpl; lia).
+    - (* Fn *)
+      destruct r as [|t1 r1]; [apply good_err|]. destruct t1; try apply good_err.
+      destruct r1 as [|t2 r2]; [apply good_err|]. destruct t2; try apply good_err.
+      assert (Tail : forall ps rest, length rest <= length r2 ->
+                good (match rest with
+                      | TRParen :: TArrow :: rest1 =>
+                          bind (tk rest1) (fun ret rest2 =>
+                            match rest2 with
+                            | TRBracket :: rest3 => Ok (TAFn ps ret) rest3
+                            | _ => Err ExpectedTokenInFunctionType
+                            end)
+                      | TRParen :: _ => Err ExpectedTokenInFunctionType
+                      | _ => Err MissingClosingParen
+                      end) (TKw KCapitalFn :: TLBracket :: TLParen :: r2)).
+      { intros ps rest Lr. destruct rest as [|t3 r3]; [apply good_err|]. destruct t3; try apply good_err.
+        destruct r3 as [|t4 r4]; [apply good_err|]. destruct t4; try apply good_err.
+        apply (good_bind_w _ _ _ _ _ r4); [apply Htk; simpl in *; lia|simpl in *; lia|].
+        intros ret rest2 E2 L2. destruct rest2 as [|t5 r5]; [apply good_err|]. destruct t5; try apply good_err.
+        apply good_ok. simpl in *. lia. }
+      assert (Gen : good (bind (bind (tk r2) (fun a rest => fn_type_params_loop tk (S (length rest)) [a] rest))
+                 (fun ps rest => match rest with
+                      | TRParen :: TArrow :: rest1 =>
+                          bind (tk rest1) (fun ret rest2 =>
+                            match rest2 with
+                            | TRBracket :: rest3 => Ok (TAFn ps ret) rest3
+                            | _ => Err ExpectedTokenInFunctionType
+                            end)
+                      | TRParen :: _ => Err ExpectedTokenInFunctionType
+                      | _ => Err MissingClosingParen
+                      end)) (TKw KCapitalFn :: TLBracket :: TLParen :: r2)).
+      { assert (G1 : good (bind (tk r2) (fun a rest => fn_type_params_loop tk (S (length rest)) [a] rest)) r2).
+        { apply (good_bind_w _ _ _ _ _ r2); [apply Htk; simpl in *; lia|lia|].
+          intros a rest E Lr. eapply goodle_good; [apply fn_type_params_loop_good; simpl in *; lia|lia]. }
+        apply (good_bind_w _ _ _ _ _ r2); [exact G1|simpl; lia|].
+        intros ps rest E Lr. apply Tail. lia. }
+      destruct r2 as [|t3 r3]; [exact Gen|]. destruct t3; try exact Gen.
+      cbn [bind]. apply (Tail [] (TRParen :: r3)). lia.
+    - (* List *)
+      destruct r as [|t1 r1]; [apply good_err|]. destruct t1; try apply good_err.
+      apply (good_bind_w _ _ _ _ _ r1); [apply Htk; simpl in *; lia|simpl; lia|].
+      intros a rest E Lr. destruct rest as [|t2 r2]; [apply good_err|].
+      destruct t2; try apply good_err; try apply good_uns. apply good_ok. simpl in *. lia.
+  Qed.
+End TypeFuel.
+
+Lemma type_knot_good : forall d,
+  (forall ts, S (length ts) <= d -> good (type_annotation_d d ts) ts)
+  /\ (forall ts, S (length ts) <= d -> good (dimension_expression_d d ts) ts).
+Proof.
+  induction d; [split; intros ts L; lia|]. destruct IHd as [I1 I2]. split; intros ts L; cbn [type_annotation_d dimension_expression_d].
+  - apply (type_annotation_body_good _ _ d); [exact I1|exact I2|lia].
+  - apply (dimension_factor_good _ _ d); [exact I1|exact I2|lia].
+Qed.
+
+Lemma type_annotation_good : forall ts, good (type_annotation ts) ts.
+Proof. intros ts. unfold type_annotation. apply (proj1 (type_knot_good (S (length ts)))). lia. Qed.
+Lemma dimension_expression_good : forall ts, good (dimension_expression ts) ts.
+Proof. intros ts. unfold dimension_expression. apply (proj2 (type_knot_good (S (length ts)))). lia. Qed.
+
+(* ---- statements *)
+Lemma opt_ann_good : forall r,
+  goodle (match r with
+          | TColon :: r1 => bind (type_annotation r1) (fun a rest => Ok (Some a) rest)
+          | _ => Ok None r
+          end) r.
+Proof.
+  intros r. assert (P : goodle (Ok (@None tann) r) r) by (apply goodle_ok; lia).
+  destruct r as [|t r1]; [exact P|]. destruct t; try exact P.
+  apply good_goodle. apply (good_bind_w _ _ _ _ _ r1); [apply type_annotation_good|simpl; lia|].
+  intros a rest E Lr. apply good_ok. simpl. lia.
+Qed.
+
+Lemma parse_variable_good : forall flush decos ts, good (parse_variable flush decos ts) ts.
+Proof.
+  intros flush decos ts. unfold parse_variable.
+  destruct ts as [|t r]; [apply good_err|]. destruct t; try apply good_err.
+  pose proof (opt_ann_good r) as G.
+  apply good_bind; [eapply goodle_weaken; [exact G|simpl; lia]|].
+  intros a rest E. destruct G as [_ G]. specialize (G a rest E).
+  destruct rest as [|t1 r1]; [apply good_err|]. destruct t1; try apply good_err.
+  pose proof (skip_le r1). pose proof (expression_good (skip_empty_lines r1)) as Ge.
+  apply (good_bind_w _ _ _ _ _ (skip_empty_lines r1)); [exact Ge|simpl in *; lia|].
+  intros e rest2 E2 L2.
+  destruct (flush && contains_aliases_with_prefixes decos); [apply good_err|].
+  destruct (flush && contains_examples decos); [apply good_err|]. apply good_ok. simpl in *. lia.
+Qed.
+
+Lemma parse_procedure_good : forall k ts, good (parse_procedure k ts) ts.
+Proof.
+  intros k ts. unfold parse_procedure. destruct ts as [|t r]; [apply good_err|]. destruct t; try apply good_err.
+  pose proof (arguments_top_good r) as G.
+  apply good_bind; [eapply goodle_weaken; [exact G|simpl; lia]|].
+  intros a rest Ea. destruct G as [_ G]. specialize (G a rest Ea). apply good_ok. simpl. lia.
+Qed.
+
+Lemma type_parameters_loop_good : forall n acc ts, length ts < n -> good (type_parameters_loop n acc ts) ts.
+Proof.
+  induction n; intros acc ts L; [lia|]. simpl.
+  destruct ts as [|t r]; [apply good_err|]. destruct t; try apply good_err; try apply good_uns.
+  - apply good_ok. simpl. lia.
+  - (* identifier *)
+    assert (B : good (match r with
+                      | TColon :: TIdent bd :: r1 => if list_eq_dec N.eq_dec bd str_Dim then Ok true r1 else Err UnknownBound
+                      | TColon :: _ => Err ExpectedBoundInTypeParameterDefinition
+                      | _ => Ok false r
+                      end) (TIdent name :: r)).
+    { destruct r as [|t1 r1]; [apply good_ok; simpl; lia|]. destruct t1; try (apply good_ok; simpl; lia).
+      destruct r1 as [|t2 r2]; [apply good_err|]. destruct t2; try apply good_err.
+      destruct (list_eq_dec _ _ _); [apply good_ok; simpl; lia|apply good_err]. }
+    apply (good_bind_w _ _ _ _ _ (TIdent name :: r)); [exact B|lia|].
+    intros bd rest E Lr. destruct rest as [|t1 r1]; [apply good_err|].
+    destruct t1; try apply good_err;
+      (eapply good_weaken; [apply IHn; simpl in *; lia|simpl in *; lia]).
+Qed.
+
+Lemma type_parameters_good : forall ts, goodle (type_parameters ts) ts.
+Proof.
+  intros ts. unfold type_parameters. assert (P : goodle (Ok (@nil (str * bool)) ts) ts) by (apply goodle_ok; lia).
+  destruct ts as [|t r]; [exact P|]. destruct t; try exact P.
+  apply good_goodle. eapply good_weaken; [apply type_parameters_loop_good; lia|simpl; lia].
+Qed.
+
+Lemma fn_params_loop_good : forall n acc ts, length ts < n -> good (fn_params_loop n acc ts) ts.
+Proof.
+  induction n; intros acc ts L; [lia|]. simpl.
+  destruct ts as [|t r]; [apply good_err|]. destruct t; try apply good_err.
+  - apply good_ok. simpl. lia.
+  - pose proof (opt_ann_good r) as G.
+    apply good_bind; [eapply goodle_weaken; [exact G|simpl; lia]|].
+    intros a rest E. destruct G as [_ G]. specialize (G a rest E).
+    pose proof (skip_le rest) as S1.
+    destruct (skip_empty_lines rest) as [|t1 r1] eqn:E1; [apply good_err|].
+    destruct t1; try apply good_err.
+    + apply good_ok. simpl in *. lia.
+    + pose proof (skip_le r1) as S2.
+      assert (Rec : good (fn_params_loop n (acc ++ [(name, a)]) (skip_empty_lines r1)) (TIdent name :: r)).
+      { eapply good_weaken; [apply IHn; simpl in *; lia|simpl in *; lia]. }
+      destruct (skip_empty_lines r1) as [|t2 r2] eqn:E2; [exact Rec|].
+      destruct t2; try exact Rec. apply good_ok. simpl in *. lia.
+Qed.
+
+Lemma drop_separators_le : forall ts, length (drop_separators ts) <= length ts.
+Proof. induction ts as [|t r IH]; simpl; [lia|]. destruct t; simpl; lia. Qed.
+
+Lemma match_kw_shorter : forall k ts r, match_kw_beyond_linebreaks k ts = Some r -> length r < length ts.
+Proof.
+  intros k ts r H. unfold match_kw_beyond_linebreaks in H. pose proof (skip_le ts).
+  destruct (match drop_separators ts with [] => false | t :: _ => is_kw k t end).
+  - destruct (skip_empty_lines ts) as [|t r1] eqn:E; [discriminate|].
+    destruct (is_kw k t); [|discriminate]. inversion H; subst. simpl in *. lia.
+  - destruct ts as [|t r1]; [discriminate|]. destruct (is_kw k t); [|discriminate]. inversion H; subst. simpl. lia.
+Qed.
+
+Lemma local_variable_good : forall ts, good (local_variable ts) ts.
+Proof.
+  intros ts. unfold local_variable. pose proof (skip_le ts).
+  pose proof (parse_variable_good false [] (skip_empty_lines ts)) as [G1 G2].
+  destruct (parse_variable false [] (skip_empty_lines ts)) eqn:E; try apply good_err; try apply good_uns.
+  - specialize (G2 a rest eq_refl). apply good_ok. lia.
+  - congruence.
+Qed.
+
+Lemma and_loop_good : forall n acc ts, length ts < n -> goodle (and_loop n acc ts) ts.
+Proof.
+  induction n; intros acc ts L; [lia|]. simpl.
+  destruct (match_kw_beyond_linebreaks KAnd ts) as [r|] eqn:M; [|apply goodle_ok; lia].
+  pose proof (match_kw_shorter _ _ _ M).
+  apply (goodle_bind_w _ _ _ _ _ r); [apply local_variable_good|lia|].
+  intros v rest E Lr. eapply goodle_weaken; [apply IHn; lia|lia].
+Qed.
+
+Lemma parse_function_declaration_good : forall decos ts, good (parse_function_declaration decos ts) ts.
+Proof.
+  intros decos ts. unfold parse_function_declaration.
+  destruct ts as [|t r]; [apply good_err|]. destruct t; try apply good_err.
+  pose proof (type_parameters_good r) as G.
+  apply good_bind; [eapply goodle_weaken; [exact G|simpl; lia]|].
+  intros tps rest E. destruct G as [_ G]. specialize (G tps rest E).
+  destruct rest as [|t1 rest1]; [apply good_err|]. destruct t1; try apply good_err.
+  set (rest1a := match rest1 with TNewline :: x => x | _ => rest1 end).
+  assert (La : length rest1a <= length rest1) by (subst rest1a; destruct rest1 as [|t2 x]; [lia|]; destruct t2; simpl; lia).
+  apply (good_bind_w _ _ _ _ _ rest1a); [apply fn_params_loop_good; lia|simpl in *; lia|].
+  intros params rest2 E2 L2.
+  assert (Gret : goodle (match rest2 with
+                         | TArrow :: r2 => bind (type_annotation r2) (fun a x => Ok (Some a) x)
+                         | _ => Ok None rest2
+                         end) rest2).
+  { assert (P : goodle (Ok (@None tann) rest2) rest2) by (apply goodle_ok; lia).
+    destruct rest2 as [|t2 r2]; [exact P|]. destruct t2; try exact P.
+    apply good_goodle. apply (good_bind_w _ _ _ _ _ r2); [apply type_annotation_good|simpl; lia|].
+    intros a x Ea Lx. apply good_ok. simpl. lia. }
+  apply good_bind; [eapply goodle_weaken; [exact Gret|simpl in *; lia]|].
+  intros ret rest3 E3. destruct Gret as [_ Gret]. specialize (Gret ret rest3 E3).
+  assert (Gbody : goodle (match rest3 with
+                  | TEqual :: r3 =>
+                      bind (expression (skip_empty_lines r3)) (fun b rest4 =>
+                        match match_kw_beyond_linebreaks KWhere rest4 with
+                        | Some r4 =>
+                            bind (local_variable r4) (fun v rest5 =>
+                              bind (and_loop (S (length rest5)) [v] rest5) (fun vs rest6 => Ok (Some b, vs) rest6))
+                        | None => Ok (Some b, []) rest4
+                        end)
+                  | _ => Ok (None, []) rest3
+                  end) rest3).
+  { assert (P : goodle (Ok (@None expr, @nil defvar) rest3) rest3) by (apply goodle_ok; lia).
+    destruct rest3 as [|t3 r3]; [exact P|]. destruct t3; try exact P.
+    pose proof (skip_le r3). apply good_goodle.
+    apply (good_bind_w _ _ _ _ _ (skip_empty_lines r3)); [apply expression_good|simpl; lia|].
+    intros bdy rest4 E4 L4.
+    destruct (match_kw_beyond_linebreaks KWhere rest4) as [r4|] eqn:M; [|apply good_ok; simpl in *; lia].
+    pose proof (match_kw_shorter _ _ _ M).
+    apply (good_bind_w _ _ _ _ _ r4); [apply local_variable_good|simpl in *; lia|].
+    intros v rest5 E5 L5.
+    apply good_bind; [eapply goodle_weaken; [apply and_loop_good; lia|simpl in *; lia]|].
+    intros vs rest6 E6. pose proof (proj2 (and_loop_good (S (length rest5)) [v] rest5 ltac:(lia)) vs rest6 E6).
+    apply good_ok. simpl in *. lia. }
+  apply good_bind; [eapply goodle_weaken; [exact Gbody|simpl in *; lia]|].
+  intros bl rest7 E7. destruct Gbody as [_ Gbody]. specialize (Gbody bl rest7 E7).
+  destruct (contains_aliases decos); [apply good_err|]. apply good_ok. simpl in *. lia.
+Qed.
+
+Lemma dimension_eq_loop_good : forall n acc ts, length ts < n -> goodle (dimension_eq_loop n acc ts) ts.
+Proof.
+  induction n; intros acc ts L; [lia|]. simpl.
+  destruct ts as [|t r]; [apply goodle_ok; lia|]. destruct t; try (apply goodle_ok; lia).
+  pose proof (skip_le r).
+  apply (goodle_bind_w _ _ _ _ _ (skip_empty_lines r)); [apply dimension_expression_good|simpl; lia|].
+  intros d rest E Lr. eapply goodle_weaken; [apply IHn; simpl in *; lia|simpl in *; lia].
+Qed.
+
+Lemma parse_dimension_declaration_good : forall ts, good (parse_dimension_declaration ts) ts.
+Proof.
+  intros ts. unfold parse_dimension_declaration.
+  destruct ts as [|t r]; [apply good_err|]. destruct t; try apply good_err.
+  destruct (starts_double_underscore name); [apply good_err|].
+  apply good_bind; [eapply goodle_weaken; [apply dimension_eq_loop_good; lia|simpl; lia]|].
+  intros ds rest E. pose proof (proj2 (dimension_eq_loop_good (S (length r)) [] r ltac:(lia)) ds rest E).
+  apply good_ok. simpl. lia.
+Qed.
+
+Lemma accepts_prefix_good : forall ts, goodle (accepts_prefix ts) ts.
+Proof. intros ts. unfold accepts_prefix. gsolve. Qed.
+
+Lemma alias_entry_good : forall ts, good (alias_entry ts) ts.
+Proof.
+  intros ts. unfold alias_entry. destruct ts as [|t r]; [apply good_err|]. destruct t; try apply good_err.
+  apply good_bind; [eapply goodle_weaken; [apply accepts_prefix_good|simpl; lia]|].
+  intros a rest E. pose proof (proj2 (accepts_prefix_good r) a rest E). apply good_ok. simpl. lia.
+Qed.
+
+Lemma aliases_loop_good : forall n acc ts, length ts < n -> good (aliases_loop n acc ts) ts.
+Proof.
+  induction n; intros acc ts L; [lia|]. simpl.
+  destruct ts as [|t r]; [apply good_err|]. destruct t; try apply good_err.
+  - apply good_ok. simpl. lia.
+  - apply (good_bind_w _ _ _ _ _ r); [apply alias_entry_good|simpl; lia|].
+    intros a rest E Lr. eapply good_weaken; [apply IHn; simpl in *; lia|simpl; lia].
+Qed.
+
+Lemma list_of_aliases_good : forall ts, good (list_of_aliases ts) ts.
+Proof.
+  intros ts. unfold list_of_aliases.
+  assert (G : good (bind (alias_entry ts) (fun a rest => aliases_loop (S (length rest)) [a] rest)) ts).
+  { apply (good_bind_w _ _ _ _ _ ts); [apply alias_entry_good|lia|].
+    intros a rest E Lr. eapply good_weaken; [apply aliases_loop_good; lia|lia]. }
+  destruct ts as [|t r]; [exact G|]. destruct t; try exact G. apply good_ok. simpl. lia.
+Qed.
+
+Lemma parse_decorator_good : forall ts, good (parse_decorator ts) ts.
+Proof.
+  intros ts. unfold parse_decorator.
+  destruct ts as [|t r]; [apply good_err|]. destruct t; try apply good_err.
+  destruct (seq name w_metric_prefixes); [apply good_ok; simpl; lia|].
+  destruct (seq name w_binary_prefixes); [apply good_ok; simpl; lia|].
+  destruct (seq name w_abbreviation); [apply good_ok; simpl; lia|].
+  destruct (seq name w_aliases).
+  { destruct r as [|t1 r1]; [apply good_err|]. destruct t1; try apply good_err.
+    apply (good_bind_w _ _ _ _ _ r1); [apply list_of_aliases_good|simpl; lia|].
+    intros l rest E Lr. apply good_ok. simpl in *. lia. }
+  destruct (seq name w_url || seq name w_name || seq name w_description); [gsolve|].
+  destruct (seq name w_example); [gsolve|apply good_err].
+Qed.
+
+Lemma parse_unit_declaration_good : forall decos ts, good (parse_unit_declaration decos ts) ts.
+Proof.
+  intros decos ts. unfold parse_unit_declaration.
+  destruct ts as [|t r]; [apply good_err|]. destruct t; try apply good_err.
+  assert (G : goodle (match r with
+                      | TColon :: r1 => bind (dimension_expression r1) (fun d rest => Ok (Some d) rest)
+                      | _ => Ok None r
+                      end) r).
+  { assert (P : goodle (Ok (@None texp) r) r) by (apply goodle_ok; lia).
+    destruct r as [|t1 r1]; [exact P|]. destruct t1; try exact P.
+    apply good_goodle. apply (good_bind_w _ _ _ _ _ r1); [apply dimension_expression_good|simpl; lia|].
+    intros d rest E Lr. apply good_ok. simpl. lia. }
+  apply good_bind; [eapply goodle_weaken; [exact G|simpl; lia]|].
+  intros d rest E. destruct G as [_ G]. specialize (G d rest E).
+  destruct (contains_examples decos); [apply good_err|].
+  assert (NoEq : good (match d with
+                       | Some _ => Ok (StUnit name (option_map TAExp d) None decos) rest
+                       | None => if is_end_of_statement rest then Ok (StUnit name None None decos) rest
+                                 else Err ExpectedColonOrEqualAfterUnitIdentifier
+                       end) (TIdent name :: r)).
+  { destruct d; [apply good_ok; simpl; lia|]. destruct (is_end_of_statement rest); [apply good_ok; simpl; lia|apply good_err]. }
+  destruct rest as [|t1 r1]; [exact NoEq|]. destruct t1; try exact NoEq.
+  pose proof (skip_le r1).
+  apply (good_bind_w _ _ _ _ _ (skip_empty_lines r1)); [apply expression_good|simpl in *; lia|].
+  intros e rest2 E2 L2. apply good_ok. simpl in *. lia.
+Qed.
+
+Lemma use_loop_good : forall n acc ts, length ts < n -> goodle (use_loop n acc ts) ts.
+Proof.
+  induction n; intros acc ts L; [lia|]. simpl.
+  destruct ts as [|t r]; [apply goodle_ok; lia|]. destruct t; try (apply goodle_ok; lia).
+  destruct r as [|t1 r1]; [apply goodle_err|]. destruct t1; try apply goodle_err.
+  eapply goodle_weaken; [apply IHn; simpl in *; lia|simpl; lia].
+Qed.
+
+Lemma parse_use_good : forall ts, good (parse_use ts) ts.
+Proof.
+  intros ts. unfold parse_use. destruct ts as [|t r]; [apply good_err|]. destruct t; try apply good_err.
+  apply good_bind; [eapply goodle_weaken; [apply use_loop_good; lia|simpl; lia]|].
+  intros p rest E. pose proof (proj2 (use_loop_good (S (length r)) [name] r ltac:(lia)) p rest E).
+  apply good_ok. simpl. lia.
+Qed.
+
+Lemma struct_fields_loop_good : forall n acc ts, length ts < n -> good (struct_fields_loop n acc ts) ts.
+Proof.
+  induction n; intros acc ts L; [lia|]. simpl.
+  assert (Common : good (match skip_empty_lines ts with
+          | TIdent f :: r =>
+              match skip_empty_lines r with
+              | TColon :: r1 =>
+                  bind (type_annotation (skip_empty_lines r1)) (fun a rest =>
+                    match skip_empty_lines rest with
+                    | TComma :: r2 => struct_fields_loop n (acc ++ [(f, a)]) (skip_empty_lines r2)
+                    | TRCurly :: r2 => struct_fields_loop n (acc ++ [(f, a)]) (TRCurly :: r2)
+                    | _ => Err ExpectedCommaOrRightCurlyInStructFieldList
+                    end)
+              | _ => Err ExpectedColonAfterFieldName
+              end
+          | _ => Err ExpectedFieldNameInStruct
+          end) ts).
+  { pose proof (skip_le ts) as S1.
+    destruct (skip_empty_lines ts) as [|t r] eqn:E; [apply good_err|]. destruct t; try apply good_err.
+    pose proof (skip_le r) as S2.
+    destruct (skip_empty_lines r) as [|t2 r2] eqn:E2; [apply good_err|]. destruct t2; try apply good_err.
+    pose proof (skip_le r2) as S3.
+    apply (good_bind_w _ _ _ _ _ (skip_empty_lines r2)); [apply type_annotation_good|simpl in *; lia|].
+    intros a rest Ea La. pose proof (skip_le rest) as S4.
+    destruct (skip_empty_lines rest) as [|t3 r3] eqn:E3; [apply good_err|]. destruct t3; try apply good_err.
+    - eapply good_weaken; [apply IHn; simpl in *; lia|simpl in *; lia].
+    - pose proof (skip_le r3) as S5. eapply good_weaken; [apply IHn; simpl in *; lia|simpl in *; lia]. }
+  destruct ts as [|t r]; [exact Common|]. destruct t; try exact Common. apply good_ok. simpl. lia.
+Qed.
+
+Lemma parse_struct_good : forall ts, good (parse_struct ts) ts.
+Proof.
+  intros ts. unfold parse_struct. destruct ts as [|t r]; [apply good_err|]. destruct t; try apply good_err.
+  pose proof (type_parameters_good r) as G.
+  apply good_bind; [eapply goodle_weaken; [exact G|simpl; lia]|].
+  intros tps rest E. destruct G as [_ G]. specialize (G tps rest E).
+  destruct rest as [|t1 r1]; [apply good_err|]. destruct t1; try apply good_err.
+  pose proof (skip_le r1).
+  apply (good_bind_w _ _ _ _ _ (skip_empty_lines r1)); [apply struct_fields_loop_good; simpl in *; lia|simpl in *; lia|].
+  intros fs rest2 E2 L2. apply good_ok. simpl in *. lia.
+Qed.
+
+Lemma statement_n_good : forall n decos ts, length ts < n -> good (statement_n n decos ts) ts.
+Proof.
+  induction n; intros decos ts L; [lia|]. cbn [statement_n].
+  destruct (negb _); [apply good_err|].
   assert (E : good (bind (expression ts) (fun e rest => Ok (StExpr e) rest)) ts).
   { pose proof (expression_good ts) as G. apply good_bind; [apply good_goodle; exact G|].
     intros e rest Ee. destruct G as [_ G]. specialize (G e rest Ee). apply good_ok. exact G. }
   destruct ts as [|t r]; [exact E|]. destruct t; try exact E.
-  destruct k; try exact E.
-  - (* let *)
-    unfold parse_variable.
-    destruct r as [|t1 r1]; [apply good_err|]. destruct t1; try apply good_err.
-    destruct r1 as [|t2 r2]; [apply good_err|]. destruct t2; try apply good_err; try apply good_uns.
-    pose proof (skip_le r2). pose proof (expression_good (skip_empty_lines r2)) as G.
-    apply good_bind; [apply good_goodle; eapply good_weaken; [exact G|simpl; lia]|].
-    intros e rest Ee. destruct G as [_ G]. specialize (G e rest Ee). apply good_ok. simpl. lia.
-  - (* print *)
-    simpl. destruct r as [|t1 r1]; [apply good_err|]. destruct t1; try apply good_err.
-    pose proof (arguments_top_good r1) as G.
-    apply good_bind; [eapply goodle_weaken; [exact G|simpl; lia]|].
-    intros a rest Ea. destruct G as [_ G]. specialize (G a rest Ea). apply good_ok. simpl. lia.
-  - simpl. destruct r as [|t1 r1]; [apply good_err|]. destruct t1; try apply good_err.
-    pose proof (arguments_top_good r1) as G.
-    apply good_bind; [eapply goodle_weaken; [exact G|simpl; lia]|].
-    intros a rest Ea. destruct G as [_ G]. specialize (G a rest Ea). apply good_ok. simpl. lia.
-  - simpl. destruct r as [|t1 r1]; [apply good_err|]. destruct t1; try apply good_err.
-    pose proof (arguments_top_good r1) as G.
-    apply good_bind; [eapply goodle_weaken; [exact G|simpl; lia]|].
-    intros a rest Ea. destruct G as [_ G]. specialize (G a rest Ea). apply good_ok. simpl. lia.
-  - simpl. destruct r as [|t1 r1]; [apply good_err|]. destruct t1; try apply good_err.
-    pose proof (arguments_top_good r1) as G.
-    apply good_bind; [eapply goodle_weaken; [exact G|simpl; lia]|].
-    intros a rest Ea. destruct G as [_ G]. specialize (G a rest Ea). apply good_ok. simpl. lia.
+  - (* @ *)
+    apply (good_bind_w _ _ _ _ _ r); [apply parse_decorator_good|simpl; lia|].
+    intros d rest Ed Ld. pose proof (skip_le rest).
+    eapply good_weaken; [apply IHn; simpl in *; lia|simpl in *; lia].
+  - destruct k; try exact E.
+    + apply (good_bind_w _ _ _ _ _ r); [apply parse_variable_good|simpl; lia|].
+      intros v rest Ev Lv. apply good_ok. simpl. lia.
+    + eapply good_weaken; [apply parse_function_declaration_good|simpl; lia].
+    + eapply good_weaken; [apply parse_dimension_declaration_good|simpl; lia].
+    + eapply good_weaken; [apply parse_unit_declaration_good|simpl; lia].
+    + eapply good_weaken; [apply parse_use_good|simpl; lia].
+    + eapply good_weaken; [apply parse_struct_good|simpl; lia].
+    + eapply good_weaken; [apply parse_procedure_good|simpl; lia].
+    + eapply good_weaken; [apply parse_procedure_good|simpl; lia].
+    + eapply good_weaken; [apply parse_procedure_good|simpl; lia].
+    + eapply good_weaken; [apply parse_procedure_good|simpl; lia].
 Qed.
+
+Lemma statement_good : forall ts, good (statement ts) ts.
+Proof. intros ts. unfold statement. apply statement_n_good. lia. Qed.
 
 Lemma parse_loop_fuel : forall n acc ts, length ts < n -> parse_loop n acc ts <> OutOfFuel.
 Proof.
   induction n; intros acc ts L; [lia|]. simpl.
   destruct ts as [|t r]; [discriminate|].
-  destruct (starts_other_statement (t :: r)); [discriminate|].
   pose proof (statement_good (t :: r)) as [G1 G2].
   destruct (statement (t :: r)) as [e rest| | |] eqn:E; try discriminate; [|congruence].
   specialize (G2 e rest eq_refl).
